@@ -1,0 +1,13 @@
+//go:build verif
+
+package account
+
+import (
+	atypes "github.com/rigochain/rigo-go/ctrlers/types"
+	"github.com/rigochain/rigo-go/ledger"
+)
+
+// VerifLedger exposes the account ledger to the verification harness.
+func (ctrler *AcctCtrler) VerifLedger() *ledger.FinalityLedger[*atypes.Account] {
+	return ctrler.acctLedger.(*ledger.FinalityLedger[*atypes.Account])
+}
